@@ -1,10 +1,13 @@
-(* Declarative meaning of a pattern of literals, `?` and `*` under okane's match options:
+(* Declarative meaning of a pattern of literals, `?`, `*` and character classes under okane's
+   match options:
    `gmatch follows ts s` — the tokens ts match the whole string s, where `follows` says that
    s begins right after a separator (or at the start of the path).
    - a literal matches itself (a separator and a dot included);
    - `?` matches one character that is neither a separator nor a dot right after a separator;
    - `*` matches a possibly empty run of such characters (only its first character can be
-     right after a separator).  *)
+     right after a separator);
+   - `[...]` matches one such character that the class lists (singly or inside a range),
+     `[!...]` one such character that the class does not list.  *)
 From Coq Require Import List NArith Bool.
 From Okv Require Import Model.Glob.
 Import ListNotations.
@@ -13,13 +16,33 @@ Open Scope N_scope.
 Definition wild_ok (follows : bool) (c : N) : bool :=
   negb (is_sep c) && negb (follows && (c =? DOT)).
 
+(* what a class lists: case sensitive, ranges by scalar value, both ends included *)
+Definition spec_has (sp : cspec) (c : N) : Prop :=
+  match sp with
+  | SingleChar a => c = a
+  | CharRange lo hi => lo <= c /\ c <= hi
+  end.
+Definition in_class (cs : list cspec) (c : N) : Prop := exists sp, In sp cs /\ spec_has sp c.
+
 Inductive gmatch : bool -> list token -> str -> Prop :=
 | GM_nil : forall f, gmatch f [] []
 | GM_char : forall f c ts s,
     gmatch (is_sep c) ts s -> gmatch f (Char c :: ts) (c :: s)
 | GM_any : forall f c ts s,
     wild_ok f c = true -> gmatch false ts s -> gmatch f (AnyChar :: ts) (c :: s)
+| GM_within : forall f cs c ts s,
+    wild_ok f c = true -> in_class cs c -> gmatch false ts s -> gmatch f (AnyWithin cs :: ts) (c :: s)
+| GM_except : forall f cs c ts s,
+    wild_ok f c = true -> ~ in_class cs c -> gmatch false ts s -> gmatch f (AnyExcept cs :: ts) (c :: s)
 | GM_seq_nil : forall f ts s,
     gmatch f ts s -> gmatch f (AnySequence :: ts) s
 | GM_seq_cons : forall f c ts s,
     wild_ok f c = true -> gmatch false (AnySequence :: ts) s -> gmatch f (AnySequence :: ts) (c :: s).
+
+(* what a written class body lists (the text between `[`/`[!` and the closing `]`): read from the
+   left, `a-b` lists the characters from a to b, any other character lists itself *)
+Inductive body_lists : str -> N -> Prop :=
+| BL_range : forall a b r c, a <= c -> c <= b -> body_lists (a :: DASH :: b :: r) c
+| BL_range_skip : forall a b r c, body_lists r c -> body_lists (a :: DASH :: b :: r) c
+| BL_single : forall a r, (forall b r', r <> DASH :: b :: r') -> body_lists (a :: r) a
+| BL_single_skip : forall a r c, (forall b r', r <> DASH :: b :: r') -> body_lists r c -> body_lists (a :: r) c.
